@@ -5,7 +5,10 @@ import (
 	"go/ast"
 	"go/token"
 	"go/types"
+	"sort"
 	"strings"
+
+	"golang.org/x/tools/go/cfg"
 
 	"verif/sa/core"
 )
@@ -14,77 +17,255 @@ func init() { register("C14", c14) }
 
 const storeAdd = "internal/metrics.(*Store).Add"
 
+// c14IsHandleMap reports whether e is a map whose elements are pointers to a
+// struct type declared in internal/runtime (Runtime.handles).
+func c14IsHandleMap(info *types.Info, e ast.Expr) bool {
+	t := info.TypeOf(e)
+	if t == nil {
+		return false
+	}
+	m, ok := t.Underlying().(*types.Map)
+	if !ok {
+		return false
+	}
+	return c14IsHandlePtr(m.Elem())
+}
+
+func c14IsHandlePtr(t types.Type) bool {
+	p, ok := t.(*types.Pointer)
+	if !ok {
+		return false
+	}
+	n, ok := p.Elem().(*types.Named)
+	if !ok || n.Obj().Pkg() == nil || core.Rel(n.Obj().Pkg().Path()) != "internal/runtime" {
+		return false
+	}
+	_, isStruct := n.Underlying().(*types.Struct)
+	return isStruct
+}
+
+// c14HandleOp classifies a node as an operation that ends or replaces a
+// running version: close of a channel of log lines, delete from or store into
+// the handle map.  Types decide, not names.
+func c14HandleOp(f *core.Func, n ast.Node) bool {
+	info := f.Info()
+	switch x := n.(type) {
+	case *ast.CallExpr:
+		switch f.CalleeID(x) {
+		case "builtin.close":
+			return len(x.Args) == 1 && isChanOfLogLine(info, x.Args[0])
+		case "builtin.delete":
+			return len(x.Args) == 2 && c14IsHandleMap(info, x.Args[0])
+		}
+	case *ast.AssignStmt:
+		for _, l := range x.Lhs {
+			if ix, ok := core.Unparen(l).(*ast.IndexExpr); ok && c14IsHandleMap(info, ix.X) {
+				return true
+			}
+		}
+	}
+	return false
+}
+
 func c14(c *core.Check) {
-	c.Explain = "Decides structural necessary conditions of C14 in the loader and the metric store: (R1) the unchanged-contents test dominates compilation and its true branch changes nothing; (R2) no operation that ends or replaces the running version precedes a failing exit of the load; (R3) a struct copied field-by-field from an older value of the same type copies every field (pending expiry survives a reload); (R4) once one metric of the new version has been registered no failing exit is reachable; (R5) in Store.Add the only reasons to skip an existing same-name metric as 'not the previous version' are a different program — otherwise the old series stays next to the new one; (R6) the index used to remove the previous version is an index into the very slice it is removed from, and the removal is conditional on exactly that index having been set. All CFG paths of the current source are covered; what the compiler produces and label-copy semantics are not."
-	c.Assume = append(c.Assume, "metric identity within one program is (name, program); Type/Source changes are edits of the same declaration")
+	c.Explain = "Decides structural necessary conditions of C14 in the loader and the metric store: (R1) compilation and every other effect of a load are reachable only when the running version is absent or its stored hash differs from the new one, the test dereferences the handle only when it exists, and it compares the stored hash with the value a successful load stores; (R2) no operation that ends or replaces the running version precedes a failing exit of the load; (R3) a struct copied field-by-field from an older value of the same type copies every field (pending expiry survives a reload); (R4) once one metric of the new version has been registered no failing exit is reachable; (R5) in Store.Add the only condition on which recognising an existing same-name metric as the previous version depends is equality of the Program fields — otherwise the old series stays next to the new one; (R6) the index used to remove the previous version is an index into the very slice it is removed from, and the removal is conditional on exactly that index having been set. Conditions are recognised in any boolean shape (if/else, early exit, tagless switch, negation, &&/||, single-assignment locals) through the CFG edges they label. All CFG paths of the current source are covered; what the compiler produces and label-copy semantics are not."
+	c.Assume = append(c.Assume, "metric identity within one program is (name, program); Type/Source changes are edits of the same declaration",
+		"a local variable with exactly one definition keeps the value of its defining expression (used to see through aliases of conditions and of the scanned slice)")
 	car := c.MustFn("C14-R1", compileAndRun)
 	add := c.MustFn("C14-R3", storeAdd)
 	if car == nil || add == nil {
 		return
 	}
 	g := car.Graph()
+	info := car.Info()
 
-	c.Rule("C14-R1", "UNCHANGED-FIRST: every path to the Compile call passes the `bytes.Equal(stored hash, new hash)` test; from its true branch no compile, store registration, handle change or counter is reachable")
-	compiles := g.Calls(func(id string, _ *ast.CallExpr) bool { return strings.HasSuffix(id, "compiler.(*Compiler).Compile") })
-	eqIfs := ifsWhere(car, func(is *ast.IfStmt) bool { return exprCalls(car, is.Cond, "bytes.Equal") })
-	if len(compiles) == 0 || len(eqIfs) == 0 {
-		c.Fail("C14-R1", compileAndRun, pos(c, car.Decl), fmt.Sprintf("compile calls: %d, unchanged-contents tests: %d — reloading identical source recompiles and restarts the program", len(compiles), len(eqIfs)))
-	} else {
-		var conds []core.Point
-		for _, is := range eqIfs {
-			if p, ok := g.PointOf(is.Cond); ok {
-				conds = append(conds, p)
-			}
+	// functions of the loader package that (transitively) end/replace a handle or register a metric
+	enderFuncs := c.Prog.Reaching(func(f *core.Func) bool {
+		if core.Rel(f.Pkg.PkgPath) != "internal/runtime" {
+			return false
 		}
-		tr, found := pathAvoiding(g, nil, core.HitPoints(compiles), conds)
-		c.Verdict(!found, "C14-R1", compileAndRun+"|dominates", pos(c, compiles[0].N), "hash test before compile", "the program can be compiled (and then swapped in) without first testing whether its contents are unchanged: identical source restarts the VM", tr...)
-		effects := append(append(core.HitPoints(compiles), core.HitPoints(g.CallsTo(storeAdd))...), core.HitPoints(mapStores(g, ".handles"))...)
-		effects = append(effects, core.HitPoints(closesOf(g, ".lines"))...)
-		for _, is := range eqIfs {
-			if start, ok := branchStart(g, is, true); ok {
-				tr, found := pathAvoiding(g, start, effects, nil)
-				c.Verdict(!found, "C14-R1", compileAndRun+"|unchanged does nothing", pos(c, is), "no effect on the unchanged path", "the unchanged-contents branch still compiles, registers metrics or swaps the handle", tr...)
+		found := false
+		ast.Inspect(f.Body, func(n ast.Node) bool {
+			if n != nil && c14HandleOp(f, n) {
+				found = true
 			}
-			// the condition must require the handle to exist
-			cond := strings.ReplaceAll(exprStr(is.Cond), " ", "")
-			c.Verdict(strings.HasPrefix(cond, "ok&&") || strings.Contains(cond, "&&ok"), "C14-R1", compileAndRun+"|needs loaded", pos(c, is), "only for a loaded program", "the unchanged test does not require the program to be loaded")
-		}
+			return !found
+		})
+		return found
+	})
+	for f := range handleEnders(c) {
+		enderFuncs[f] = true
 	}
-	c.Floor("C14-R1", 3)
+	regFuncs := c.Prog.Reaching(func(f *core.Func) bool {
+		if core.Rel(f.Pkg.PkgPath) != "internal/runtime" {
+			return false
+		}
+		found := false
+		ast.Inspect(f.Body, func(n ast.Node) bool {
+			if call, ok := n.(*ast.CallExpr); ok && f.CalleeID(call) == storeAdd {
+				found = true
+			}
+			return !found
+		})
+		return found
+	})
+	handleOps := g.Find(func(n ast.Node) bool {
+		if c14HandleOp(car, n) {
+			return true
+		}
+		if call, ok := n.(*ast.CallExpr); ok {
+			if cf := car.CalleeFunc(call); cf != nil && cf != car && enderFuncs[cf] {
+				return true
+			}
+		}
+		return false
+	})
+	regOps := g.Calls(func(id string, call *ast.CallExpr) bool {
+		if id == storeAdd {
+			return true
+		}
+		cf := car.CalleeFunc(call)
+		return cf != nil && cf != car && regFuncs[cf]
+	})
 
-	c.Rule("C14-R2", "FAILURE-KEEPS-RUNNING: shared with C26-R3 — no handle-ending operation (close of lines, delete/store in r.handles, directly or via a callee) reaches a failing exit of CompileAndRun")
-	{
-		enders := handleEnders(c)
-		ops := g.Find(func(n ast.Node) bool {
-			switch x := n.(type) {
-			case *ast.CallExpr:
-				id := car.CalleeID(x)
-				if id == "builtin.close" && len(x.Args) == 1 && strings.HasSuffix(core.PathOf(x.Args[0]), ".lines") {
-					return true
-				}
-				if id == "builtin.delete" && strings.HasSuffix(core.PathOf(x.Args[0]), ".handles") {
-					return true
-				}
-				if cf := car.CalleeFunc(x); cf != nil && enders[cf] && cf != car {
-					return true
-				}
-			case *ast.AssignStmt:
-				for _, l := range x.Lhs {
-					if ix, ok := core.Unparen(l).(*ast.IndexExpr); ok && strings.HasSuffix(core.PathOf(ix.X), ".handles") {
-						return true
+	c.Rule("C14-R1", "UNCHANGED-FIRST: (dominates) the Compile call, and (unchanged does nothing) every store registration, handle end/replacement — direct or through a callee — is reachable only over a branch edge that implies `no handle is loaded, or bytes.Equal(stored hash, new hash) is false`; (needs loaded) the comparison dereferences the looked-up handle only where it is known to exist; (stored vs new) it compares the handle's hash field with the very value a successful load stores in that field")
+	compiles := g.Calls(func(id string, _ *ast.CallExpr) bool { return strings.HasSuffix(id, "compiler.(*Compiler).Compile") })
+	type eqTest struct {
+		hit           core.Hit
+		call          *ast.CallExpr
+		hv, okObj     types.Object
+		stored, fresh ast.Expr
+		field         *types.Var
+	}
+	var eqs []eqTest
+	for _, h := range g.CallsTo("bytes.Equal") {
+		call := h.N.(*ast.CallExpr)
+		if len(call.Args) != 2 {
+			continue
+		}
+		for k := 0; k < 2; k++ {
+			arg := hbResolve(car, call.Args[k])
+			fld, x := hbFieldOf(info, arg)
+			if fld == nil {
+				continue
+			}
+			hv := identObj(info, x)
+			if hv == nil || !c14IsHandlePtr(hv.Type()) {
+				continue
+			}
+			t := eqTest{hit: h, call: call, hv: hv, stored: arg, fresh: call.Args[1-k], field: fld}
+			// the comma-ok companion of the handle variable, if any
+			core.InspectNoLit(car.Body, func(n ast.Node) bool {
+				if as, ok := n.(*ast.AssignStmt); ok && len(as.Lhs) == 2 && len(as.Rhs) == 1 && identObj(info, as.Lhs[0]) == hv {
+					if o := identObj(info, as.Lhs[1]); o != nil {
+						if bt, isB := o.Type().Underlying().(*types.Basic); isB && bt.Info()&types.IsBoolean != 0 {
+							t.okObj = o
+						}
 					}
 				}
-			}
-			return false
+				return true
+			})
+			eqs = append(eqs, t)
+			break
+		}
+	}
+	switch {
+	case len(compiles) == 0:
+		c.Undecided("C14-R1", compileAndRun+"|dominates", pos(c, car.Decl), "no call of Compiler.Compile found in CompileAndRun (moved into a helper?)")
+	case len(eqs) == 0:
+		// is a comparison hidden in a helper?
+		viaHelper := false
+		eqFuncs := c.Prog.Reaching(func(f *core.Func) bool {
+			return core.Rel(f.Pkg.PkgPath) == "internal/runtime" && exprCalls(f, f.Body, "bytes.Equal")
 		})
-		var errRets []core.Point
-		for _, e := range normalExits(g) {
-			if e.Kind == "return" && !returnsNil(car.Info(), e.Ret) {
-				errRets = append(errRets, e.P)
+		for _, cf := range car.Callees() {
+			if eqFuncs[cf] && cf != car {
+				viaHelper = true
 			}
 		}
+		if viaHelper {
+			c.Undecided("C14-R1", compileAndRun+"|dominates", pos(c, car.Decl), "no bytes.Equal on a handle's hash field in CompileAndRun itself; a callee compares bytes — shape not recognised")
+		} else {
+			c.Fail("C14-R1", compileAndRun, pos(c, car.Decl), fmt.Sprintf("compile calls: %d, unchanged-contents tests (bytes.Equal on a field of the looked-up handle): 0 — reloading identical source recompiles and restarts the program", len(compiles)))
+		}
+	default:
+		// fact Q: "the program is not loaded, or its stored hash differs"
+		changed := func(e ast.Expr) (bool, bool) {
+			for _, t := range eqs {
+				if e == ast.Expr(t.call) {
+					return false, true
+				}
+				if t.okObj != nil && identObj(info, e) == t.okObj {
+					return false, true
+				}
+				if x, isEq, ok := hbNilCmp(info, e); ok && identObj(info, x) == t.hv {
+					return isEq, !isEq
+				}
+			}
+			return false, false
+		}
+		tr, found := hbUnguardedPath(g, nil, core.HitPoints(compiles), changed)
+		c.Verdict(!found, "C14-R1", compileAndRun+"|dominates", pos(c, compiles[0].N), "Compile only where the contents are known to differ or nothing is loaded", "the program can be compiled (and then swapped in) on a path on which the contents were not found to differ from the loaded version: identical source restarts the VM", tr...)
+		effects := append(append(core.HitPoints(compiles), core.HitPoints(regOps)...), core.HitPoints(handleOps)...)
+		tr, found = hbUnguardedPath(g, nil, effects, changed)
+		c.Verdict(!found, "C14-R1", compileAndRun+"|unchanged does nothing", pos(c, eqs[0].call), fmt.Sprintf("none of the %d effects is reachable on the unchanged path", len(effects)), "with unchanged contents the load still compiles, registers metrics or ends/replaces the handle", tr...)
+		for i, t := range eqs {
+			sfx := ""
+			if i > 0 {
+				sfx = fmt.Sprintf("#%d", i+1)
+			}
+			// fact: the handle variable is non-nil
+			loaded := func(e ast.Expr) (bool, bool) {
+				if t.okObj != nil && identObj(info, e) == t.okObj {
+					return true, false
+				}
+				if x, isEq, ok := hbNilCmp(info, e); ok && identObj(info, x) == t.hv {
+					return !isEq, isEq
+				}
+				return false, false
+			}
+			guarded := false
+			var wtr []string
+			if p, ok := g.PointOf(t.call); ok {
+				var root ast.Expr
+				switch n := p.Node().(type) {
+				case ast.Expr:
+					root = n
+				case *ast.AssignStmt:
+					for _, r := range n.Rhs {
+						if r.Pos() <= t.call.Pos() && t.call.End() <= r.End() {
+							root = r
+						}
+					}
+				}
+				if root != nil && hbShortCircuit(car, root, t.call, loaded) {
+					guarded = true
+				} else {
+					tr, unguarded := hbUnguardedPath(g, nil, []core.Point{p}, loaded)
+					guarded, wtr = !unguarded, tr
+				}
+			}
+			c.Verdict(guarded, "C14-R1", compileAndRun+"|needs loaded"+sfx, pos(c, t.call), "the handle's hash is read only for a loaded program", "the unchanged test reads the hash of the looked-up handle where the handle is not known to exist: the first load of a program dereferences a nil handle", wtr...)
+			// stored vs new
+			okStore, seen := c14StoresFresh(car, t.field, t.fresh, t.hv.Type())
+			key := compileAndRun + "|stored vs new" + sfx
+			switch {
+			case okStore:
+				c.Ok("C14-R1", key, pos(c, t.call), "compares handle."+t.field.Name()+" with the value installed as "+t.field.Name()+" of the new handle")
+			case !seen:
+				c.Undecided("C14-R1", key, pos(c, t.call), "no handle literal setting "+t.field.Name()+" found in CompileAndRun or a direct callee")
+			default:
+				c.Fail("C14-R1", key, pos(c, t.call), "the unchanged test compares the running version's "+t.field.Name()+" with "+exprStr(t.fresh)+", which is not what a successful load stores in that field: identical source is reloaded every time, or changed source never is")
+			}
+		}
+	}
+	c.Floor("C14-R1", 4)
+
+	c.Rule("C14-R2", "FAILURE-KEEPS-RUNNING: shared with C26-R3 — no handle-ending operation (close of a line channel, delete from / store into the handle map, directly or via a callee) reaches a failing exit of CompileAndRun")
+	{
+		errRets := hbFailingExits(g)
 		bad := false
-		for i, o := range ops {
+		for i, o := range handleOps {
 			from := o.P
 			if tr, found := pathAvoiding(g, &from, errRets, nil); found {
 				bad = true
@@ -92,23 +273,184 @@ func c14(c *core.Check) {
 			}
 		}
 		if !bad {
-			c.Ok("C14-R2", compileAndRun, pos(c, car.Decl), fmt.Sprintf("%d handle-ending operations, %d failing exits, none ordered badly", len(ops), len(errRets)))
+			c.Ok("C14-R2", compileAndRun, pos(c, car.Decl), fmt.Sprintf("%d handle-ending operations, %d failing exits, none ordered badly", len(handleOps), len(errRets)))
 		}
-		if len(ops) == 0 {
+		if len(handleOps) == 0 {
 			c.Undecided("C14-R2", compileAndRun+"|ops", pos(c, car.Decl), "no handle swap found")
 		}
 	}
 	c.Floor("C14-R2", 1)
 
-	c.Rule("C14-R3", "COPY-COMPLETE: a composite literal of a module struct type T in which some field f is initialised from X.f of another T value is a field-wise copy and must initialise every field of T (LabelValue: Labels, Value, Expiry)")
+	c.Rule("C14-R3", "COPY-COMPLETE: a value of a module struct type T built by a keyed composite literal (plus field assignments to the variable it initialises) in which some field f is taken from X.f of another T value is a field-wise copy and must set every field of T (LabelValue: Labels, Value, Expiry)")
+	c14Copies(c)
+	c.Floor("C14-R3", 1)
+
+	c.Rule("C14-R4", "ATOMIC-REGISTRATION: in CompileAndRun (and in a helper of the loader that registers), from the success edge of the test of a Store.Add result no failing exit is reachable (otherwise the k-th refusal leaves k-1 metrics of the new version swapped into the store while the old version keeps running on orphaned metrics)")
+	{
+		type regSite struct {
+			f      *core.Func
+			call   *ast.CallExpr
+			direct bool // a call of Store.Add itself (not of a helper that registers)
+		}
+		var sites []regSite
+		for _, h := range regOps {
+			call := h.N.(*ast.CallExpr)
+			sites = append(sites, regSite{car, call, car.CalleeID(call) == storeAdd})
+		}
+		// helpers of the loader that call Store.Add directly
+		var helpers []*core.Func
+		for f := range regFuncs {
+			if f != car && f.Lit == nil && reachableFrom(car, f) {
+				helpers = append(helpers, f)
+			}
+		}
+		sort.Slice(helpers, func(i, j int) bool { return helpers[i].Key < helpers[j].Key })
+		for _, hf := range helpers {
+			c.Analysed(hf)
+			for _, h := range hf.Graph().CallsTo(storeAdd) {
+				sites = append(sites, regSite{hf, h.N.(*ast.CallExpr), true})
+			}
+		}
+		// the construct is "the k-th Store.Add call of the load started by CompileAndRun",
+		// wherever the call lives (CompileAndRun first, then its helpers by key)
+		nAdd, nVia := 0, 0
+		for _, s := range sites {
+			var key string
+			if s.direct {
+				nAdd++
+				key = fmt.Sprintf("%s|ms.Add#%d", compileAndRun, nAdd)
+			} else {
+				nVia++
+				key = fmt.Sprintf("%s|registers via callee#%d", compileAndRun, nVia)
+			}
+			sg := s.f.Graph()
+			site, errOnTrue, found, propagated := hbErrTest(s.f, sg, s.call)
+			if propagated {
+				c.Ok("C14-R4", key, pos(c, s.call), "the registration result is returned as it is: nothing follows a success in "+s.f.Key)
+				continue
+			}
+			if !found {
+				c.Fail("C14-R4", key+"|result ignored", pos(c, s.call), "the result of the registration is not tested: a refused metric is ignored and the program runs with unexported metrics")
+				continue
+			}
+			tr, bad := pathAvoiding(sg, hbBranch(site, !errOnTrue), hbFailingExits(sg), nil)
+			c.Verdict(!bad, "C14-R4", key, pos(c, s.call), "no failing exit after a successful registration", "after one metric of the new version has replaced its predecessor in the store the load can still fail (next Add refused): the export is no longer as it was and the still-running old version updates metrics that are no longer exported", tr...)
+		}
+	}
+	c.Floor("C14-R4", 1)
+
+	c14Store(c, add)
+}
+
+// reachableFrom reports whether to is reached from from through statically resolved calls.
+func reachableFrom(from, to *core.Func) bool {
+	seen := map[*core.Func]bool{}
+	var walk func(f *core.Func) bool
+	walk = func(f *core.Func) bool {
+		if f == to {
+			return true
+		}
+		if seen[f] {
+			return false
+		}
+		seen[f] = true
+		for _, cf := range f.Callees() {
+			if walk(cf) {
+				return true
+			}
+		}
+		return false
+	}
+	return walk(from)
+}
+
+// c14StoresFresh looks for a composite literal of the handle struct that sets
+// field to the same value as fresh: in f itself (same object / same
+// expression), or in a direct callee of f that receives fresh as an argument
+// and stores the corresponding parameter.  seen reports whether any literal
+// setting the field was found at all.
+func c14StoresFresh(f *core.Func, field *types.Var, fresh ast.Expr, handleT types.Type) (ok, seen bool) {
+	info := f.Info()
+	litSets := func(in *core.Func, match func(v ast.Expr) bool) {
+		ast.Inspect(in.Body, func(n ast.Node) bool {
+			lit, isLit := n.(*ast.CompositeLit)
+			if !isLit {
+				return true
+			}
+			for _, el := range lit.Elts {
+				kv, isKV := el.(*ast.KeyValueExpr)
+				if !isKV {
+					continue
+				}
+				if id, isId := kv.Key.(*ast.Ident); isId && in.Info().Uses[id] == types.Object(field) {
+					seen = true
+					if match(kv.Value) {
+						ok = true
+					}
+				}
+			}
+			return true
+		})
+		// field assignment form h.field = v
+		ast.Inspect(in.Body, func(n ast.Node) bool {
+			as, isAs := n.(*ast.AssignStmt)
+			if !isAs || len(as.Lhs) != len(as.Rhs) {
+				return true
+			}
+			for i, l := range as.Lhs {
+				if fv, _ := hbFieldOf(in.Info(), l); fv == field {
+					seen = true
+					if match(as.Rhs[i]) {
+						ok = true
+					}
+				}
+			}
+			return true
+		})
+	}
+	freshR := hbResolve(f, fresh)
+	litSets(f, func(v ast.Expr) bool {
+		return hbSameExpr(info, hbResolve(f, v), freshR) && !hbHasCall(freshR) || (identObj(info, v) != nil && identObj(info, v) == identObj(info, fresh))
+	})
+	if ok {
+		return
+	}
+	// one level of callee
+	ast.Inspect(f.Body, func(n ast.Node) bool {
+		call, isCall := n.(*ast.CallExpr)
+		if !isCall {
+			return true
+		}
+		cf := f.CalleeFunc(call)
+		if cf == nil || cf == f {
+			return true
+		}
+		for i, a := range call.Args {
+			if identObj(info, a) == nil || identObj(info, a) != identObj(info, fresh) {
+				continue
+			}
+			po := hbParam(cf, i)
+			if po == nil {
+				continue
+			}
+			litSets(cf, func(v ast.Expr) bool { return identObj(cf.Info(), v) == po })
+		}
+		return true
+	})
+	return
+}
+
+// c14Copies checks R3 on every shipped function and returns the number of copies found.
+func c14Copies(c *core.Check) int {
 	ncopy := 0
 	for _, sf := range shipped(c) {
+		info := sf.Info()
 		core.InspectNoLit(sf.Body, func(n ast.Node) bool {
 			lit, ok := n.(*ast.CompositeLit)
 			if !ok {
 				return true
 			}
-			t := sf.Info().TypeOf(lit)
+			t := info.TypeOf(lit)
 			if t == nil {
 				return true
 			}
@@ -120,24 +462,66 @@ func c14(c *core.Check) {
 			if !ok {
 				return true
 			}
-			set := map[string]bool{}
+			set := map[*types.Var]bool{}
 			var srcs []string
+			// source detection: value is X.f for the same field f of another T
+			note := func(field *types.Var, val ast.Expr) {
+				set[field] = true
+				fv, x := hbFieldOf(info, val)
+				if fv == nil || fv != field {
+					return
+				}
+				xt := info.TypeOf(x)
+				if p, ok := xt.(*types.Pointer); ok {
+					xt = p.Elem()
+				}
+				if xt != nil && types.Identical(xt, named) {
+					srcs = append(srcs, core.PathOf(x))
+				}
+			}
 			for _, el := range lit.Elts {
 				kv, ok := el.(*ast.KeyValueExpr)
 				if !ok {
+					return true // positional literal: the compiler demands every field
+				}
+				id, _ := kv.Key.(*ast.Ident)
+				fv, _ := info.Uses[id].(*types.Var)
+				if id == nil || fv == nil {
 					return true
 				}
-				fname := exprStr(kv.Key)
-				set[fname] = true
-				if sel, ok := core.Unparen(kv.Value).(*ast.SelectorExpr); ok && sel.Sel.Name == fname {
-					xt := sf.Info().TypeOf(sel.X)
-					if p, ok := xt.(*types.Pointer); ok {
-						xt = p.Elem()
+				note(fv, kv.Value)
+			}
+			// field assignments to the variable the literal initialises
+			var owner types.Object
+			core.InspectNoLit(sf.Body, func(x ast.Node) bool {
+				as, ok := x.(*ast.AssignStmt)
+				if !ok || len(as.Lhs) != len(as.Rhs) {
+					return true
+				}
+				for i, r := range as.Rhs {
+					r = core.Unparen(r)
+					if u, ok := r.(*ast.UnaryExpr); ok && u.Op == token.AND {
+						r = core.Unparen(u.X)
 					}
-					if types.Identical(xt, named) {
-						srcs = append(srcs, core.PathOf(sel.X))
+					if r == ast.Expr(lit) {
+						owner = identObj(info, as.Lhs[i])
 					}
 				}
+				return true
+			})
+			if owner != nil && hbSingleDef(sf, owner) != nil {
+				core.InspectNoLit(sf.Body, func(x ast.Node) bool {
+					as, ok := x.(*ast.AssignStmt)
+					if !ok || len(as.Lhs) != len(as.Rhs) {
+						return true
+					}
+					for i, l := range as.Lhs {
+						if fv, base := hbFieldOf(info, l); fv != nil && identObj(info, base) == owner {
+							note(fv, as.Rhs[i])
+						}
+					}
+					return true
+				})
 			}
 			if len(srcs) == 0 {
 				return true
@@ -146,7 +530,7 @@ func c14(c *core.Check) {
 			c.Analysed(sf)
 			var missing []string
 			for i := 0; i < st.NumFields(); i++ {
-				if !set[st.Field(i).Name()] {
+				if !set[st.Field(i)] {
 					missing = append(missing, st.Field(i).Name())
 				}
 			}
@@ -155,104 +539,252 @@ func c14(c *core.Check) {
 			return true
 		})
 	}
-	c.Floor("C14-R3", 1)
+	return ncopy
+}
 
-	c.Rule("C14-R4", "ATOMIC-REGISTRATION: in CompileAndRun, from the success branch of an r.ms.Add call no failing exit is reachable (otherwise the k-th refusal leaves k-1 metrics of the new version swapped into the store while the old version keeps running on orphaned metrics)")
-	for i, h := range g.CallsTo(storeAdd) {
-		call := h.N.(*ast.CallExpr)
-		key := fmt.Sprintf("%s|ms.Add#%d", compileAndRun, i+1)
-		is := enclosingErrIf(car, call)
-		if is == nil {
-			c.Fail("C14-R4", key, pos(c, call), "the result of Store.Add is not tested: a refused metric is ignored and the program runs with unexported metrics")
-			continue
+// c14Scan is the loop of Store.Add that looks for the previous version.
+type c14Scan struct {
+	*hbLoop
+	stmt   ast.Stmt       // the loop statement
+	body   *ast.BlockStmt //
+	key    types.Object   // index variable
+	x      ast.Expr       // the collection as written in the loop
+	coll   ast.Expr       // the collection with local aliases resolved
+	dupe   types.Object   // the duplicate-index variable
+	assign *ast.AssignStmt
+}
+
+// c14FindScan finds an index-order loop over a slice (range or canonical for)
+// in which the loop's index is assigned to a variable.
+func c14FindScan(add *core.Func) *c14Scan {
+	info := add.Info()
+	var res *c14Scan
+	core.InspectNoLit(add.Body, func(n ast.Node) bool {
+		if res != nil {
+			return false
 		}
-		start, ok := branchStart(g, is, false)
-		if !ok {
-			c.Undecided("C14-R4", key, pos(c, is), "cannot locate the success branch")
-			continue
+		lp := hbLoopOf(add, n)
+		if lp == nil {
+			return true
 		}
-		var errRets []core.Point
-		for _, e := range normalExits(g) {
-			if e.Kind == "return" && !returnsNil(car.Info(), e.Ret) {
-				errRets = append(errRets, e.P)
+		sc := &c14Scan{hbLoop: lp, stmt: lp.Stmt, body: lp.Body, key: lp.Key, x: lp.X, coll: lp.Coll}
+		core.InspectNoLit(sc.body, func(x ast.Node) bool {
+			as, ok := x.(*ast.AssignStmt)
+			if !ok || as.Tok != token.ASSIGN || len(as.Lhs) != 1 || len(as.Rhs) != 1 || sc.assign != nil {
+				return true
 			}
+			if identObj(info, as.Rhs[0]) == sc.key {
+				if d := identObj(info, as.Lhs[0]); d != nil {
+					sc.dupe, sc.assign = d, as
+				}
+			}
+			return true
+		})
+		if sc.dupe != nil {
+			res = sc
 		}
-		tr, found := pathAvoiding(g, start, errRets, nil)
-		c.Verdict(!found, "C14-R4", key, pos(c, call), "no failing exit after a successful registration", "after one metric of the new version has replaced its predecessor in the store the load can still fail (next Add refused): the export is no longer as it was and the still-running old version updates metrics that are no longer exported", tr...)
-	}
-	c.Floor("C14-R4", 1)
+		return true
+	})
+	return res
+}
 
-	// Store.Add
+// c14Leaf is a leaf condition together with the truth value it has on the way to the duplicate-index assignment.
+type c14Leaf struct {
+	e    ast.Expr
+	pol  bool
+	disj bool // the leaf is an undecomposable disjunction
+}
+
+// c14Leaves decomposes "cond has truth value pol" into the leaves that are then known.
+func c14Leaves(f *core.Func, cond ast.Expr, pol bool, depth int) []c14Leaf {
+	e := core.Unparen(cond)
+	if depth > 8 {
+		return []c14Leaf{{e: e, pol: pol}}
+	}
+	switch x := e.(type) {
+	case *ast.UnaryExpr:
+		if x.Op == token.NOT {
+			return c14Leaves(f, x.X, !pol, depth+1)
+		}
+	case *ast.BinaryExpr:
+		if (x.Op == token.LAND && pol) || (x.Op == token.LOR && !pol) {
+			return append(c14Leaves(f, x.X, pol, depth+1), c14Leaves(f, x.Y, pol, depth+1)...)
+		}
+		if x.Op == token.LAND || x.Op == token.LOR {
+			return []c14Leaf{{e: e, pol: pol, disj: true}}
+		}
+	case *ast.Ident:
+		if def := hbSingleDef(f, identObj(f.Info(), x)); def != nil {
+			return c14Leaves(f, def, pol, depth+1)
+		}
+	}
+	return []c14Leaf{{e: e, pol: pol}}
+}
+
+func c14Store(c *core.Check, add *core.Func) {
 	ag := add.Graph()
-	c.Rule("C14-R5", "ONE-PER-(NAME,PROGRAM): in Store.Add's scan for the previous version, every `continue` that skips a candidate before the duplicate index is set is guarded by a comparison of the Program fields only")
-	c.Rule("C14-R6", "INDEX-COHERENT: the duplicate index is assigned only from the key of `range X`, the removal is `X = append(X[0:d], X[d+1:]...)` on the same X, it is guarded by `d >= 0`, and d starts at -1")
-	var scan *ast.RangeStmt
-	var dupe types.Object
-	for _, rs := range rangeStmts(add) {
-		core.InspectNoLit(rs.Body, func(n ast.Node) bool {
-			if as, ok := n.(*ast.AssignStmt); ok && len(as.Lhs) == 1 && len(as.Rhs) == 1 {
-				if identObj(add.Info(), as.Rhs[0]) != nil && identObj(add.Info(), as.Rhs[0]) == identObj(add.Info(), rs.Key) {
-					if _, isIdent := as.Lhs[0].(*ast.Ident); isIdent && scan == nil {
-						scan = rs
-						dupe = identObj(add.Info(), as.Lhs[0])
-					}
-				}
-			}
-			return true
-		})
-	}
-	if scan == nil || dupe == nil {
+	info := add.Info()
+	c.Rule("C14-R5", "ONE-PER-(NAME,PROGRAM): in Store.Add's scan for the previous version, every branch on which reaching the assignment of the duplicate index depends (if/continue, if/break, switch case, enclosing if, in any polarity) demands equality of the Program fields of the scanned and the new metric and nothing else")
+	c.Rule("C14-R6", "INDEX-COHERENT: the duplicate index is assigned only from the index of a loop over the stored per-name slice X (directly or through a single-definition alias), the removal is `X = append(X[:d], X[d+1:]...)` (or slices.Delete(X, d, d+1)) on that X, it is reachable only over an edge implying d >= 0, d starts at -1, and the new metric is appended to X on every successful path")
+	sc := c14FindScan(add)
+	mObj := hbParam(add, 0)
+	if sc == nil || mObj == nil {
 		c.Undecided("C14-R6", storeAdd+"|scan", pos(c, add.Decl), "no loop assigning its index to a duplicate-index variable found in Store.Add")
+		c.Floor("C14-R5", 1)
+		c.Floor("C14-R6", 6)
+		return
+	}
+	dupe := sc.dupe
+	coll := exprStr(sc.coll)
+
+	// R5: restrictive branch sites between the start of an iteration and the assignment
+	head, body, _ := loopBlocks(ag, sc.stmt)
+	ap, okAp := ag.PointOf(sc.assign)
+	if head == nil || body == nil || !okAp {
+		c.Undecided("C14-R5", storeAdd+"|scan", pos(c, sc.stmt), "cannot locate the scan loop in the CFG")
 	} else {
-		coll := exprStr(scan.X)
-		mObj := paramObj(add, "m")
-		// R5: continues before the dupe assignment
-		var dupeAssign ast.Node
-		core.InspectNoLit(scan.Body, func(n ast.Node) bool {
-			if as, ok := n.(*ast.AssignStmt); ok && len(as.Lhs) == 1 && identObj(add.Info(), as.Lhs[0]) == dupe && dupeAssign == nil {
-				dupeAssign = as
+		avoidHead := func(b *cfg.Block, si int) bool { return b.Succs[si] == head }
+		reaches := func(b *cfg.Block) bool {
+			if b == ap.B {
+				return true
 			}
-			return true
-		})
-		nskip := 0
-		for _, st := range scan.Body.List {
-			if dupeAssign != nil && st.Pos() >= dupeAssign.Pos() {
-				break
+			_, ok := ag.Search(core.Query{From: &core.Point{B: b, I: -1}, Goal: core.At(ap), AvoidEdge: avoidHead})
+			return ok
+		}
+		fromBody := func(b *cfg.Block) bool {
+			if b == body {
+				return true
 			}
-			is, ok := st.(*ast.IfStmt)
-			if !ok {
+			_, ok := ag.Search(core.Query{From: &core.Point{B: body, I: -1}, Goal: func(p core.Point) bool { return p.B == b }, AvoidEdge: avoidHead})
+			return ok
+		}
+		fieldCmp := func(e ast.Expr) (field string, isEq, ok bool) {
+			be, isB := core.Unparen(e).(*ast.BinaryExpr)
+			if !isB {
+				return "", false, false
+			}
+			fx, bx := hbFieldOf(info, be.X)
+			fy, by := hbFieldOf(info, be.Y)
+			if fx == nil || fy == nil || fx != fy {
+				return "", false, false
+			}
+			pair := (sc.IsElem(add, bx) && identObj(info, by) == mObj) || (sc.IsElem(add, by) && identObj(info, bx) == mObj)
+			if !pair {
+				return "", false, false
+			}
+			switch be.Op {
+			case token.EQL:
+				return fx.Name(), true, true
+			case token.NEQ:
+				return fx.Name(), false, true
+			}
+			return fx.Name(), false, false
+		}
+		needsProgram := false
+		nsites := 0
+		var sites []hbSite
+		for _, s := range hbSites(ag) {
+			if s.Cond.Pos() < sc.body.Pos() || s.Cond.End() > sc.body.End() || s.Cond.Pos() > sc.assign.Pos() {
 				continue
 			}
-			skips := false
-			ast.Inspect(is.Body, func(n ast.Node) bool {
-				if b, ok := n.(*ast.BranchStmt); ok && b.Tok == token.CONTINUE {
-					skips = true
+			sites = append(sites, s)
+		}
+		sort.Slice(sites, func(i, j int) bool { return sites[i].Cond.Pos() < sites[j].Cond.Pos() })
+		for _, s := range sites {
+			if !fromBody(s.B) {
+				continue
+			}
+			rt, rf := reaches(s.B.Succs[0]), reaches(s.B.Succs[1])
+			if rt == rf {
+				continue // the assignment does not depend on this branch
+			}
+			nsites++
+			for _, lf := range c14Leaves(add, s.Cond, rt, 0) {
+				field, isEq, ok := fieldCmp(lf.e)
+				switch {
+				case lf.disj:
+					c.Undecided("C14-R5", storeAdd+"|skip on "+exprStr(lf.e), pos(c, lf.e), "the previous version is recognised only when a disjunction holds; which of its operands is demanded is not decided")
+				case ok && isEq == lf.pol && field == "Program":
+					needsProgram = true
+					c.Ok("C14-R5", storeAdd+"|skip on Program", pos(c, lf.e), "skips other programs' metrics only")
+				case ok && isEq == lf.pol:
+					c.Fail("C14-R5", storeAdd+"|skip on "+field, pos(c, lf.e), "an existing metric of the same name and program is not treated as the previous version because its "+field+" differs: after such an edit (declaration moved to another line, value type changed) the old series stays in the store next to the new one — two series with the same name and labels from one program")
+				case ok:
+					c.Fail("C14-R5", storeAdd+"|skip on equal "+field, pos(c, lf.e), "an existing metric is treated as the previous version only when its "+field+" DIFFERS from the new metric's: the program's own previous version is kept as a duplicate and another program's metric is replaced")
+				default:
+					c.Fail("C14-R5", storeAdd+"|skip on "+exprStr(lf.e), pos(c, lf.e), fmt.Sprintf("recognising the previous version additionally depends on `%s` being %v: an existing metric of the same name and program for which it is not stays in the store next to the new one", exprStr(lf.e), lf.pol))
 				}
-				return true
-			})
-			if !skips {
-				continue
 			}
-			nskip++
-			fields := comparedFields(add, is.Cond, identObj(add.Info(), scan.Value), mObj)
-			key := fmt.Sprintf("%s|skip on %s", storeAdd, strings.Join(fields, ","))
-			onlyProgram := len(fields) == 1 && fields[0] == "Program"
-			c.Verdict(onlyProgram, "C14-R5", key, pos(c, is), "skips other programs' metrics only",
-				"an existing metric of the same name and program is not treated as the previous version because its "+strings.Join(fields, "/")+" differs: after such an edit (declaration moved to another line, value type changed) the old series stays in the store next to the new one — two series with the same name and labels from one program")
 		}
-		if nskip == 0 {
-			c.Fail("C14-R5", storeAdd+"|program filter", pos(c, scan), "the scan for the previous version does not skip metrics of other programs: a reload replaces another program's metric")
+		if !needsProgram && hbHasCall(sc.coll) {
+			c.Undecided("C14-R5", storeAdd+"|program filter", pos(c, sc.stmt), "the scan ranges over a derived collection ("+coll+"); whether the derivation filters by Program is not decided here (see C14-R6 scan collection)")
+		} else if !needsProgram {
+			c.Fail("C14-R5", storeAdd+"|program filter", pos(c, sc.stmt), "the scan for the previous version does not demand the same Program: a reload replaces another program's metric")
 		}
-		// R6
-		c.Verdict(coll != "" && !strings.Contains(coll, "("), "C14-R6", storeAdd+"|scan collection", pos(c, scan), "scan ranges directly over "+coll, "the scan ranges over a derived collection ("+coll+"): its index is not an index into the stored slice")
-		nsplice := 0
-		core.InspectNoLit(add.Body, func(n ast.Node) bool {
-			as, ok := n.(*ast.AssignStmt)
-			if !ok || len(as.Rhs) != 1 {
-				return true
+		c.Extra["c14_scan_restrictive_branches"] = nsites
+	}
+
+	// R6
+	c.Verdict(!hbHasCall(sc.coll), "C14-R6", storeAdd+"|scan collection", pos(c, sc.stmt), "scan ranges directly over "+coll, "the scan ranges over a derived collection ("+coll+"): its index is not an index into the stored slice")
+	isDupePlus1 := func(e ast.Expr) bool {
+		be, ok := core.Unparen(e).(*ast.BinaryExpr)
+		if !ok || be.Op != token.ADD {
+			return false
+		}
+		if identObj(info, be.X) == dupe {
+			v, isC := constInt(info, be.Y)
+			return isC && v == 1
+		}
+		if identObj(info, be.Y) == dupe {
+			v, isC := constInt(info, be.X)
+			return isC && v == 1
+		}
+		return false
+	}
+	// the index is -1 or a valid index >= 0.  A comparison with a constant that
+	// is false at -1 implies d >= 0 when it is true; one that is true at -1
+	// implies d >= 0 when it is false.
+	nonNeg := func(e ast.Expr) (bool, bool) {
+		op, cv, ok := hbCmpConst(info, e, dupe)
+		if !ok {
+			return false, false
+		}
+		atM1 := hbEvalCmp(-1, op, cv)
+		return !atM1, atM1
+	}
+	// fact "d == -1 (nothing found)": implied by a comparison being true when it is
+	// false for every index >= 0, and by its being false when it is true for every index >= 0
+	notFound := func(e ast.Expr) (bool, bool) {
+		op, cv, ok := hbCmpConst(info, e, dupe)
+		if !ok {
+			return false, false
+		}
+		all, none := true, true
+		for _, v := range []int64{0, 1, 2, 3, 1 << 40} {
+			if hbEvalCmp(v, op, cv) {
+				none = false
+			} else {
+				all = false
 			}
-			call, ok := core.Unparen(as.Rhs[0]).(*ast.CallExpr)
-			if !ok || add.CalleeID(call) != "builtin.append" || len(call.Args) != 2 || !call.Ellipsis.IsValid() {
+		}
+		return none, all
+	}
+	var splicePts []core.Point
+	nsplice := 0
+	core.InspectNoLit(add.Body, func(n ast.Node) bool {
+		as, ok := n.(*ast.AssignStmt)
+		if !ok || len(as.Rhs) != 1 || len(as.Lhs) != 1 {
+			return true
+		}
+		call, ok := core.Unparen(as.Rhs[0]).(*ast.CallExpr)
+		if !ok {
+			return true
+		}
+		lhs := as.Lhs[0]
+		okShape, isSplice := false, false
+		switch add.CalleeID(call) {
+		case "builtin.append":
+			if len(call.Args) != 2 || !call.Ellipsis.IsValid() {
 				return true
 			}
 			s0, ok0 := core.Unparen(call.Args[0]).(*ast.SliceExpr)
@@ -260,70 +792,99 @@ func c14(c *core.Check) {
 			if !ok0 || !ok1 {
 				return true
 			}
-			nsplice++
-			lhs := exprStr(as.Lhs[0])
-			hi := s0.High
-			lo1 := strings.ReplaceAll(exprStr(s1.Low), " ", "")
-			okShape := exprStr(s0.X) == lhs && exprStr(s1.X) == lhs && lhs == coll && hi != nil && identObj(add.Info(), hi) == dupe && lo1 == dupe.Name()+"+1" && (s0.Low == nil || exprStr(s0.Low) == "0") && s1.High == nil
-			c.Verdict(okShape, "C14-R6", storeAdd+"|removal", pos(c, as), "removes element "+dupe.Name()+" of "+coll, "the removal does not delete exactly element "+dupe.Name()+" of the slice that was scanned ("+coll+"): got "+exprStr(as.Rhs[0])+" assigned to "+lhs)
-			guarded := false
-			for _, ic := range add.EnclosingIfs(as.Pos()) {
-				cond := strings.ReplaceAll(exprStr(ic.If.Cond), " ", "")
-				if ic.InThen && (cond == dupe.Name()+">=0" || cond == dupe.Name()+">-1" || cond == dupe.Name()+"!=-1") {
-					guarded = true
-				}
+			isSplice = true
+			lowZero := s0.Low == nil
+			if v, isC := constInt(info, s0.Low); s0.Low != nil && isC && v == 0 {
+				lowZero = true
 			}
-			c.Verdict(guarded, "C14-R6", storeAdd+"|removal guard", pos(c, as), "only when a previous version was found", "the removal is not guarded by "+dupe.Name()+" >= 0")
-			return true
-		})
-		if nsplice == 0 {
-			c.Fail("C14-R6", storeAdd+"|removal", pos(c, add.Decl), "the previous version is never removed from the store: every reload adds a duplicate series")
-		}
-		// initial value -1 and only assigned from the range key
-		okInit, okAssign := false, true
-		core.InspectNoLit(add.Body, func(n ast.Node) bool {
-			as, ok := n.(*ast.AssignStmt)
-			if !ok {
+			okShape = hbSameExpr(info, s0.X, lhs) && hbSameExpr(info, s1.X, lhs) && hbSameExpr(info, lhs, sc.coll) &&
+				s0.High != nil && identObj(info, s0.High) == dupe && lowZero && s0.Max == nil &&
+				s1.Low != nil && isDupePlus1(s1.Low) && s1.High == nil
+		case "slices.Delete":
+			if len(call.Args) != 3 {
 				return true
 			}
-			for i, l := range as.Lhs {
-				if identObj(add.Info(), l) != dupe || len(as.Rhs) != len(as.Lhs) {
+			isSplice = true
+			okShape = hbSameExpr(info, call.Args[0], lhs) && hbSameExpr(info, lhs, sc.coll) && identObj(info, call.Args[1]) == dupe && isDupePlus1(call.Args[2])
+		}
+		if !isSplice {
+			return true
+		}
+		nsplice++
+		c.Verdict(okShape, "C14-R6", storeAdd+"|removal", pos(c, as), "removes element "+dupe.Name()+" of "+coll, "the removal does not delete exactly element "+dupe.Name()+" of the slice that was scanned ("+coll+"): got "+exprStr(as.Rhs[0])+" assigned to "+exprStr(lhs))
+		if p, ok := ag.PointOf(as); ok {
+			splicePts = append(splicePts, p)
+			tr, unguarded := hbUnguardedPath(ag, nil, []core.Point{p}, nonNeg)
+			c.Verdict(!unguarded, "C14-R6", storeAdd+"|removal guard", pos(c, as), "only when a previous version was found", "the removal can run while "+dupe.Name()+" is still -1 (no previous version found): slicing with -1 panics, or the wrong element is removed", tr...)
+		} else {
+			c.Undecided("C14-R6", storeAdd+"|removal guard", pos(c, as), "removal not found in the CFG")
+		}
+		return true
+	})
+	if nsplice == 0 {
+		c.Fail("C14-R6", storeAdd+"|removal", pos(c, add.Decl), "the previous version is never removed from the store: every reload adds a duplicate series")
+	} else {
+		// completeness: a successful exit that skips the removal is reachable only over an edge implying "nothing found"
+		tr, found := ag.Search(core.Query{Goal: core.At(core.ExitPoints(successExits(ag, add))...), Avoid: core.At(splicePts...), AvoidEdge: hbAvoid(hbEdges(ag, notFound))})
+		c.Verdict(!found, "C14-R6", storeAdd+"|removal complete", pos(c, sc.stmt), "every found index leads to the removal", "Store.Add can return success without removing a previous version that was found (for instance the one at index 0): the old series stays next to the new one", ag.Trail(tr)...)
+	}
+	// initial value -1 and only assigned from the scan's index
+	okInit, okAssign := false, true
+	core.InspectNoLit(add.Body, func(n ast.Node) bool {
+		switch s := n.(type) {
+		case *ast.AssignStmt:
+			for i, l := range s.Lhs {
+				if identObj(info, l) != dupe {
 					continue
 				}
-				if as.Tok == token.DEFINE {
-					v, isC := constInt(add.Info(), as.Rhs[i])
+				if len(s.Rhs) != len(s.Lhs) {
+					okAssign = false
+					continue
+				}
+				if s.Tok == token.DEFINE {
+					v, isC := constInt(info, s.Rhs[i])
 					okInit = isC && v == -1
-				} else if identObj(add.Info(), as.Rhs[i]) != identObj(add.Info(), scan.Key) {
+				} else if s.Tok != token.ASSIGN || identObj(info, s.Rhs[i]) != sc.key || s.Pos() < sc.body.Pos() || s.End() > sc.body.End() {
 					okAssign = false
 				}
 			}
-			return true
-		})
-		c.Verdict(okInit && okAssign, "C14-R6", storeAdd+"|index provenance", pos(c, scan), "starts at -1, set only from the scan's index", "the duplicate index does not start at -1 or is assigned from something other than the scan's own index")
-		// the append of the new metric
-		appended := false
-		core.InspectNoLit(add.Body, func(n ast.Node) bool {
-			as, ok := n.(*ast.AssignStmt)
-			if !ok || len(as.Rhs) != 1 {
-				return true
+		case *ast.ValueSpec:
+			for i, name := range s.Names {
+				if info.Defs[name] == dupe && len(s.Values) == len(s.Names) {
+					v, isC := constInt(info, s.Values[i])
+					okInit = isC && v == -1
+				}
 			}
-			if call, ok := core.Unparen(as.Rhs[0]).(*ast.CallExpr); ok && add.CalleeID(call) == "builtin.append" && len(call.Args) == 2 && !call.Ellipsis.IsValid() {
-				if exprStr(as.Lhs[0]) == coll && exprStr(call.Args[0]) == coll && identObj(add.Info(), call.Args[1]) == mObj {
-					appended = true
-					// must be before the splice on every path: index stays valid because append adds at the end
-					if p, ok := ag.PointOf(as); ok {
-						if tr, found := pathAvoiding(ag, nil, core.ExitPoints(successExits(ag, add)), []core.Point{p}); found {
-							c.Fail("C14-R6", storeAdd+"|append on success", pos(c, as), "Store.Add can return success without having stored the metric", tr...)
-						}
+		case *ast.IncDecStmt:
+			if identObj(info, s.X) == dupe {
+				okAssign = false
+			}
+		}
+		return true
+	})
+	c.Verdict(okInit && okAssign, "C14-R6", storeAdd+"|index provenance", pos(c, sc.stmt), "starts at -1, set only from the scan's index", "the duplicate index does not start at -1 or is assigned from something other than the scan's own index")
+	// the append of the new metric
+	appended := false
+	core.InspectNoLit(add.Body, func(n ast.Node) bool {
+		as, ok := n.(*ast.AssignStmt)
+		if !ok || len(as.Rhs) != 1 || len(as.Lhs) != 1 {
+			return true
+		}
+		if call, ok := core.Unparen(as.Rhs[0]).(*ast.CallExpr); ok && add.CalleeID(call) == "builtin.append" && len(call.Args) == 2 && !call.Ellipsis.IsValid() {
+			if hbSameExpr(info, as.Lhs[0], sc.coll) && hbSameExpr(info, call.Args[0], sc.coll) && identObj(info, call.Args[1]) == mObj {
+				appended = true
+				if p, ok := ag.PointOf(as); ok {
+					if tr, found := pathAvoiding(ag, nil, core.ExitPoints(successExits(ag, add)), []core.Point{p}); found {
+						c.Fail("C14-R6", storeAdd+"|append on success", pos(c, as), "Store.Add can return success without having stored the metric", tr...)
 					}
 				}
 			}
-			return true
-		})
-		c.Verdict(appended, "C14-R6", storeAdd+"|append", pos(c, add.Decl), "new metric appended to "+coll, "the new metric is not appended to the per-name slice that is scanned and spliced")
-	}
+		}
+		return true
+	})
+	c.Verdict(appended, "C14-R6", storeAdd+"|append", pos(c, add.Decl), "new metric appended to "+coll, "the new metric is not appended to the per-name slice that is scanned and spliced")
 	c.Floor("C14-R5", 1)
-	c.Floor("C14-R6", 5)
+	c.Floor("C14-R6", 6)
 }
 
 // successExits lists the normal exits that return a nil error (or nothing).
@@ -333,37 +894,6 @@ func successExits(g *core.Graph, f *core.Func) []core.Exit {
 		if e.Kind != "return" || returnsNil(f.Info(), e.Ret) {
 			out = append(out, e)
 		}
-	}
-	return out
-}
-
-// comparedFields lists the field names F such that cond compares a.F with b.F
-// (any comparison operator) for the two given objects.
-func comparedFields(f *core.Func, cond ast.Expr, a, b types.Object) []string {
-	var out []string
-	ast.Inspect(cond, func(n ast.Node) bool {
-		be, ok := n.(*ast.BinaryExpr)
-		if !ok {
-			return true
-		}
-		switch be.Op {
-		case token.EQL, token.NEQ, token.LSS, token.GTR, token.LEQ, token.GEQ:
-		default:
-			return true
-		}
-		lx, ok1 := core.Unparen(be.X).(*ast.SelectorExpr)
-		ly, ok2 := core.Unparen(be.Y).(*ast.SelectorExpr)
-		if !ok1 || !ok2 || lx.Sel.Name != ly.Sel.Name {
-			return true
-		}
-		ox, oy := identObj(f.Info(), lx.X), identObj(f.Info(), ly.X)
-		if (ox == a && oy == b) || (ox == b && oy == a) {
-			out = append(out, lx.Sel.Name)
-		}
-		return true
-	})
-	if len(out) == 0 {
-		out = []string{exprStr(cond)}
 	}
 	return out
 }
